@@ -126,6 +126,7 @@ type Path struct {
 	dhs            []dhRec
 	sleepBlocks    bool
 	eagerOffsets   bool
+	httpServeCalls int
 }
 
 type sealRec struct {
